@@ -36,20 +36,22 @@ const modPrefix = "github.com/enbility/spine-go/"
 type aval = string // "true" "false" "nil" "param" "field:<Name>" "?"
 
 type sinkRec struct {
-	root, label                   string
-	remote, persist, fpart, fdel  aval
-	data                          aval
-	site                          string // enclosing function of the call site
+	root, label                  string
+	remote, persist, fpart, fdel aval
+	data                         aval
+	site                         string // enclosing function of the call site
 }
 
 type walker struct {
-	prog    *ssa.Program
-	pkgs    []*ssa.Package
-	seen    map[string]bool
-	recs    []sinkRec
-	sites   map[string]bool // every sink call site met by the walk ("func@pos")
-	root    string
-	impl    map[string][]*ssa.Function // iface-type-string + "." + method -> implementations
+	sink  string // name of the interface method whose call sites are recorded (default UpdateDataAny)
+	rows  [][]aval
+	prog  *ssa.Program
+	pkgs  []*ssa.Package
+	seen  map[string]bool
+	recs  []sinkRec
+	sites map[string]bool // every sink call site met by the walk ("func@pos")
+	root  string
+	impl  map[string][]*ssa.Function // iface-type-string + "." + method -> implementations
 }
 
 func isModule(f *ssa.Function) bool {
@@ -265,6 +267,13 @@ func (w *walker) implementations(iface types.Type, name string) []*ssa.Function 
 
 func isSinkName(n string) bool { return n == "UpdateDataAny" }
 
+func (w *walker) isSink(n string) bool {
+	if w.sink != "" {
+		return n == w.sink
+	}
+	return isSinkName(n)
+}
+
 func (w *walker) walk(fn *ssa.Function, env []aval, label string, depth int) {
 	if fn == nil || len(fn.Blocks) == 0 || depth > 10 {
 		return
@@ -294,7 +303,8 @@ func (w *walker) walk(fn *ssa.Function, env []aval, label string, depth int) {
 			}
 			if c.IsInvoke() {
 				name := c.Method.Name()
-				if isSinkName(name) && len(args) == 5 {
+				if w.isSink(name) && len(args) == 5 {
+					w.rows = append(w.rows, args)
 					site := fmt.Sprintf("%s@%d", fn.String(), w.prog.Fset.Position(ins.Pos()).Offset)
 					w.sites[site] = true
 					w.recs = append(w.recs, sinkRec{root: w.root, label: lab, remote: args[0], persist: args[1], data: args[2], fpart: args[3], fdel: args[4], site: fn.String()})
@@ -318,7 +328,8 @@ func (w *walker) walk(fn *ssa.Function, env []aval, label string, depth int) {
 			if !isModule(callee) {
 				continue
 			}
-			if isSinkName(callee.Name()) && len(args) == 6 {
+			if w.isSink(callee.Name()) && len(args) == 6 {
+				w.rows = append(w.rows, args[1:])
 				site := fmt.Sprintf("%s@%d", fn.String(), w.prog.Fset.Position(ins.Pos()).Offset)
 				w.sites[site] = true
 				w.recs = append(w.recs, sinkRec{root: w.root, label: lab, remote: args[1], persist: args[2], data: args[3], fpart: args[4], fdel: args[5], site: fn.String()})
@@ -479,7 +490,7 @@ func main() {
 	}
 
 	// ---- the store: FunctionData.UpdateDataAny -> UpdateData -> Updater.UpdateList
-	chain := storeChain(prog, spine)
+	chain := storeChain(prog, spine, mod)
 
 	var sb strings.Builder
 	sb.WriteString("import Spine.C02Paths\n/- GENERATED by go/updpaths from the tree under test - do not edit.\n   How an update reaches the function-data store: entry point, command classifier of the path (HandleMessage),\n   abstract value of the arguments at the call of FunctionDataInterface.UpdateDataAny. -/\nnamespace Spine.Generated\n\n")
@@ -518,10 +529,10 @@ func main() {
 	fmt.Printf("generated updpaths: %d path rows, %d/%d sink sites covered\n", len(keys), covered, len(all))
 }
 
-// storeChain: inside spine.FunctionData[T]: which arguments UpdateDataAny hands to UpdateData, and UpdateData to
-// model.Updater.UpdateList ("p<i>" = i-th parameter of the enclosing method, receiver not counted), how many such
-// calls there are, and under which nil / persist tests the replace fast path stores the new value.
-func storeChain(prog *ssa.Program, spine *ssa.Package) string {
+// storeChain: inside spine.FunctionData[T]: with which arguments model.Updater.UpdateList is reached from
+// UpdateDataAny and from UpdateData ("p<i>" = i-th parameter of that method, receiver not counted), one row per
+// call site; helper functions and methods are looked through like on the entry paths.
+func storeChain(prog *ssa.Program, spine *ssa.Package, mod []*ssa.Package) string {
 	var sb strings.Builder
 	tn, ok := spine.Members["FunctionData"].(*ssa.Type)
 	if !ok {
@@ -536,37 +547,17 @@ func storeChain(prog *ssa.Program, spine *ssa.Package) string {
 		}
 		return nil
 	}
-	w := &walker{prog: prog}
-	collect := func(fn *ssa.Function, match func(c *ssa.CallCommon) bool, skipRecv bool) [][]string {
-		var res [][]string
+	collect := func(fn *ssa.Function) [][]string {
+		w := &walker{prog: prog, pkgs: mod, sites: map[string]bool{}, impl: map[string][]*ssa.Function{}, seen: map[string]bool{}, sink: "UpdateList"}
 		if fn == nil {
-			return res
+			return nil
 		}
 		env := make([]aval, len(fn.Params))
 		for i := range env {
 			env[i] = fmt.Sprintf("p%d", i-1)
 		}
-		var visit func(f *ssa.Function)
-		visit = func(f *ssa.Function) {
-			for _, b := range f.Blocks {
-				for _, ins := range b.Instrs {
-					ci, ok := ins.(ssa.CallInstruction)
-					if !ok || !match(ci.Common()) {
-						continue
-					}
-					args := ci.Common().Args
-					if skipRecv && !ci.Common().IsInvoke() && len(args) > 0 {
-						args = args[1:]
-					}
-					var row []string
-					for _, a := range args {
-						row = append(row, w.absP(a, env, fn))
-					}
-					res = append(res, row)
-				}
-			}
-		}
-		visit(fn)
+		w.walk(fn, env, "", 0)
+		res := w.rows
 		sort.Slice(res, func(i, j int) bool { return fmt.Sprint(res[i]) < fmt.Sprint(res[j]) })
 		return res
 	}
@@ -584,19 +575,10 @@ func storeChain(prog *ssa.Program, spine *ssa.Package) string {
 		}
 		sb.WriteString("]\n")
 	}
-	anyFn, updFn := find("UpdateDataAny"), find("UpdateData")
-	if os.Getenv("UPDPATHS_DEBUG") != "" && anyFn != nil {
-		anyFn.WriteTo(os.Stderr)
-	}
-	sb.WriteString("/-- spine.FunctionData: arguments of the call UpdateDataAny -> UpdateData, one row per call site (\"p<i>\" = i-th\n    parameter of the calling method) -/\n")
-	render("storeAnyToUpdate", collect(anyFn, func(c *ssa.CallCommon) bool {
-		sc := c.StaticCallee()
-		return sc != nil && strings.SplitN(sc.Name(), "[", 2)[0] == "UpdateData"
-	}, true))
-	sb.WriteString("/-- … and of the call UpdateData -> model.Updater.UpdateList -/\n")
-	render("storeUpdateToList", collect(updFn, func(c *ssa.CallCommon) bool {
-		return c.IsInvoke() && c.Method.Name() == "UpdateList"
-	}, false))
+	sb.WriteString("/-- spine.FunctionData: arguments with which model.Updater.UpdateList is reached from UpdateDataAny, one row per\n    call site (\"p<i>\" = i-th parameter of UpdateDataAny) -/\n")
+	render("storeAnyToUpdate", collect(find("UpdateDataAny")))
+	sb.WriteString("/-- … and from UpdateData -/\n")
+	render("storeUpdateToList", collect(find("UpdateData")))
 	return sb.String()
 }
 
